@@ -145,7 +145,48 @@ def features(case):
                 f.add("dotproduct-multi")
             if len(s["scatter"]) > 1 and s.get("method") == "flat_crossproduct":
                 f.add("flat-crossproduct-multi")
+    for _, l in _links(wf):
+        if l.get("lm") == "merge_flattened":
+            f.add("merge-flattened")
+        if l.get("pv") == "all_non_null":
+            f.add("all-non-null")
     return f
+
+
+def diagnose(c, o, clause):
+    """Cause class of a disagreement: syntactic class of the program + error class / shape of the difference.
+    Anything that does not fit a class keeps a generic, error-specific signature and is therefore reported."""
+    fs = features(c)
+    if clause == "sf-fails-ref-succeeds":
+        e = errclass(o["sf"].get("why", ""))
+        if e == "static-checker-incompatible" and "single-source-list-linkmerge" in fs:
+            return "static-checker-single-source-list"
+        if e == "token-not-optional" and "all-non-null" in fs:
+            return "all-non-null-empty"
+        if e == "no-suitable-token-processor" and "nested-crossproduct" in fs:
+            return "empty-nested-crossproduct"
+        if e in ("no-suitable-token-processor", "array-expected") and "merge-flattened" in fs:
+            return "merge-flattened-deep"
+        if e in ("failed-workflow-execution", "other") and "dangling-step" in fs:
+            return "dangling-step-cancelled"
+        return "plain/" + e
+    if clause == "output-differs":
+        d = diffclass(c, o)
+        if "dup-source" in fs and d in ("elements-missing", "value-differs", "elements-differ"):
+            return "dup-source-dropped"
+        if "nested-crossproduct" in fs and d == "same-elements-different-nesting":
+            return "empty-nested-crossproduct"
+        if "flat-crossproduct-multi" in fs and "merge-flattened" in fs and d == "same-elements-different-order":
+            return "flat-crossproduct-merge-flattened-order"
+        return "plain/" + d
+    if clause == "sf-succeeds-ref-fails":
+        w = o["ref"].get("why", "")
+        if "dotproduct-multi" in fs and "Length of input arrays must be equal" in w:
+            return "dotproduct-empty-vs-nonempty"
+        if "dup-source" in fs and ("Expected only one source" in w or "NoneType" in w):
+            return "dup-source-dropped"
+        return "plain"
+    return "plain"
 
 
 # ------------------------------------------------------------------------------------------------ the property
@@ -198,6 +239,8 @@ class C29(Prop):
 
     def gen(self, rng, tier):
         n = {"quick": 24, "thorough": 400, "extended": 48}[tier]
+        if os.environ.get("C29_NPROG"):          # development aid (mutation experiments on a loaded machine)
+            n = int(os.environ["C29_NPROG"])
         nops = {"quick": 320, "thorough": 3000, "extended": 600}[tier]
         progs = [G.gen_program(rng) for _ in range(n)]
         ops = [self._gen_op(rng) for _ in range(nops)]
@@ -274,14 +317,7 @@ class C29(Prop):
 
     def _ops_init(self):
         import asyncio
-
-        from streamflow.main import build_context
         self.loop = asyncio.new_event_loop()
-        d = tempfile.mkdtemp(prefix="sfv-c29-ctx-", dir=SCRATCH)
-        self.ctxdir = d
-        self.ctx = build_context({"database": {"type": "default", "config": {"connection": ":memory:"}}, "path": d})
-        import atexit
-        atexit.register(lambda: shutil.rmtree(d, ignore_errors=True))
 
     def _mk(self, t):
         from streamflow.core.workflow import Token
@@ -298,7 +334,7 @@ class C29(Prop):
 
     def _run_op(self, c):
         from streamflow.core.exception import WorkflowDefinitionException, WorkflowExecutionException
-        if self.ctx is None:
+        if self.loop is None:
             self._ops_init()
         f = c["f"]
         if f == "merge":
@@ -335,19 +371,27 @@ class C29(Prop):
             from streamflow.cwl.workflow import CWLWorkflow
 
             async def go():
-                wf = CWLWorkflow(self.ctx, config={}, name="w", cwl_version="v1.2")
-                st = wf.create_step(cls=CWLEmptyScatterConditionalStep, name="/s-empty-scatter-condition",
-                                    scatter_method=c["method"])
-                p = wf.create_port()
-                st.add_skip_port("o", p)
-                await wf.save(self.ctx.database)
-                ins = {"p%d" % i: self._mk(t) for i, t in enumerate(c["inputs"])}
-                ev = await st._eval(ins)
-                out = None
-                if not ev:
-                    await st._on_false(ins)
-                    out = self._un(p.token_list[0])
-                return {"nonempty": bool(ev), "out": out}
+                # a fresh in-memory context per case, closed afterwards (its sqlite thread must not outlive the case)
+                from streamflow.main import build_context
+                d = tempfile.mkdtemp(prefix="sfv-c29-ctx-", dir=SCRATCH)
+                ctx = build_context({"database": {"type": "default", "config": {"connection": ":memory:"}}, "path": d})
+                try:
+                    wf = CWLWorkflow(ctx, config={}, name="w", cwl_version="v1.2")
+                    st = wf.create_step(cls=CWLEmptyScatterConditionalStep, name="/s-empty-scatter-condition",
+                                        scatter_method=c["method"])
+                    p = wf.create_port()
+                    st.add_skip_port("o", p)
+                    await wf.save(ctx.database)
+                    ins = {"p%d" % i: self._mk(t) for i, t in enumerate(c["inputs"])}
+                    ev = await st._eval(ins)
+                    out = None
+                    if not ev:
+                        await st._on_false(ins)
+                        out = self._un(p.token_list[0])
+                    return {"nonempty": bool(ev), "out": out}
+                finally:
+                    await ctx.close()
+                    shutil.rmtree(d, ignore_errors=True)
             return self.loop.run_until_complete(go())
         raise ValueError(f)
 
@@ -458,13 +502,7 @@ class C29(Prop):
 
     def signature(self, c, o, clause):
         if c["f"] == "prog":
-            fs = sorted(features(c) & {"dup-source", "single-source-list-linkmerge", "dangling-step"})
-            sig = clause + "/" + ("+".join(fs) if fs else "plain")
-            if clause == "sf-fails-ref-succeeds":
-                sig += "/" + errclass(o["sf"].get("why", ""))
-            if clause == "output-differs":
-                sig += "/" + diffclass(c, o)
-            return sig
+            return clause + "/" + diagnose(c, o, clause)
         return f"{c['f']}/{clause}"
 
     def shrink(self, c):
@@ -516,6 +554,7 @@ def _canon(x):
 
 ERRCLASSES = [
     ("is not optional", "token-not-optional"),
+    ("it should be an array", "array-expected"),
     ("No suitable token processors", "no-suitable-token-processor"),
     ("is incompatible", "static-checker-incompatible"),
     ("ValidationException", "static-checker-incompatible"),
